@@ -209,6 +209,7 @@ def c08_worker(item):
     r = random.Random(seed * 104729 + 8)
     res = Res()
     cfg = wsgen.GenConfig(p_fail=0.4, max_patches=r.choice([3, 6, 10]), max_files=r.choice([1, 2, 4]), max_ops=r.choice([1, 3, 4]))
+    cfg.p_early_poison = 0.3
     long_series = r.random() < 0.03
     if long_series:
         # more patches than the default backup window (100)
@@ -329,12 +330,19 @@ def c09_worker(item):
     r = random.Random(seed * 15485863 + 9)
     res = Res()
     cfg = wsgen.GenConfig(p_fail=0.35, max_patches=r.choice([2, 3, 5, 8]))
+    cfg.p_early_poison = 0.3
     ws = wsgen.generate(seed, cfg)
     if r.random() < 0.12:
         # differing ---/+++ names whose files were created / deleted earlier in the same run: the in-memory
         # state of a single invocation and the disk state of a split one must lead to the same choice
         ws = c16_names_case(r, seed, binary, Res(), only_workspace=True)
+        ws.no_goal_truth = True
         res.count("differing-names-workspaces")
+    if r.random() < 0.1 and not getattr(ws, "no_goal_truth", False) and wsgen.add_newdir_reject(ws, r):
+        res.count("shape:reject-in-a-directory-created-by-this-run")
+    if r.random() < 0.15:
+        wsgen.nest_patch_names(ws, r)
+        res.count("workspaces-with-patches-in-sub-directories")
     np_ = len(ws.patches)
     g = r.randint(1, np_) if len(ws.patches) != 2 or r.random() < 0.5 else 2  # goal: first g patches
     backup = r.choice(["never", "never", "always", None])
@@ -347,10 +355,22 @@ def c09_worker(item):
             return a + [ws.patches[upto - 1].name]
         return a  # plain 'push' = one patch
 
+    use_d = r.random() < 0.2
+    d_form = r.choice(["%s", "%s/", "./%s", "./%s/", "abs"])
+
+    def run(where, args):
+        """one invocation in workspace `where`: from inside it, or from its parent with -d (relative or absolute)"""
+        if not use_d:
+            return runner.run_rq(binary, where, args)
+        d = where if d_form == "abs" else d_form % os.path.basename(where)
+        return runner.run_rq(binary, os.path.dirname(where), ["-d", d] + args)
+
     with Scratch("c09") as scr:
         orig, single = fresh(scr, ws, 0)
         split = os.path.join(scr, "split")
         runner.copy_ws(orig, split)
+        if use_d:
+            res.count("workspaces-driven-with--d:%s" % ("absolute" if d_form == "abs" else "relative"))
         # single invocation to goal g
         if g == np_ and r.random() < 0.5:
             a1 = inv("all", g, r.choice([1, 4]))
@@ -358,12 +378,23 @@ def c09_worker(item):
             a1 = inv("name", g, r.choice([1, 4]))
         else:
             a1 = base_args(threads=r.choice([1, 4]), backup=backup, verbosity="-q") + ["push", str(g)]
-        r1 = runner.run_rq(binary, single, a1)
+        r1 = run(single, a1)
         res["evals"] = 1
         if r1.timed_out:
             res["inconclusive"] = "watchdog"
             return res
         o1 = cli.observe(single)
+        if not getattr(ws, "no_goal_truth", False) and not r1.crashed():
+            # the goal itself: whatever its spelling (-a, a number, a name) the single invocation records exactly the
+            # patches before the goal, or those before the first failing one
+            k_want, _, _ = wsgen.expected_after(ws, 0, g)
+            want = [p.name for p in ws.patches[:k_want]]
+            if (o1["applied"] or []) != want:
+                res.viol({"class": "goal-not-what-was-asked", "spelling": "name" if a1[-1] not in ("-a", str(g)) else ("-a" if a1[-1] == "-a" else "count")},
+                         "%s recorded %r, the goal means %r; stderr %s" % (a1[-2:], o1["applied"], want, r1.err.decode("utf-8", "replace")[-300:]), orig, a1,
+                         extra={"workspace": ws.describe()})
+                return res
+            res.count("goal-checked-against-ground-truth")
         # split: random cut sequence reaching g
         pos = 0
         seq = []
@@ -388,7 +419,7 @@ def c09_worker(item):
             else:
                 a = inv("all", None, th)
                 nxt = np_
-            rs = runner.run_rq(binary, split, a)
+            rs = run(split, a)
             seq.append(a)
             if rs.timed_out:
                 res["inconclusive"] = "watchdog"
@@ -435,7 +466,7 @@ def c09_worker(item):
             res.count("splits-with>=2-applying-invocations")
         # idempotence / failure resumption: repeat the final invocation on the single copy
         snap1 = runner.snapshot(single, with_meta=True)
-        r3 = runner.run_rq(binary, single, a1)
+        r3 = run(single, a1)
         snap2 = runner.snapshot(single, with_meta=True)
         o3 = cli.observe(single)
         if r1.rc == 0:
@@ -470,8 +501,8 @@ def expected_rejects(ws, fail_idx):
     out = {}
     p = ws.patches[fail_idx]
     for op in p.ops:
-        if not op.poison:
-            continue
+        if not op.poison or op.poison == "rename-over":
+            continue   # a refused rename is not applied at all: no reject
         hunks = [op.hunks[i] for i in op.failing]
         out[op.path + ".rej"] = (op, hunks)
     return out
@@ -486,6 +517,8 @@ def c13_worker(item):
     ws = wsgen.generate(seed, cfg)
     if ws.fail_at is None:
         return res
+    if r.random() < 0.15 and wsgen.add_newdir_reject(ws, r):
+        res.count("shape:reject-in-a-directory-created-by-this-run")
     threads = r.choice([1, 2, 4, 16])
     verbosity = r.choice(["-q", None])
     args = base_args(threads=threads, backup=r.choice(["never", None, "always"]), verbosity=verbosity) + ["push", "-a"]
@@ -630,6 +663,7 @@ def c10_worker(item):
     r = random.Random(seed * 49979687 + 10)
     res = Res()
     cfg = wsgen.GenConfig(p_fail=0.5, max_patches=r.choice([1, 3, 6]))
+    cfg.p_early_poison = 0.3
     cfg.p_second_fail = 0.6
     ws = wsgen.generate(seed, cfg)
     threads = r.choice([1, 4])
@@ -1424,7 +1458,14 @@ def c17_worker(item):
         runner.copy_ws(orig, work)
         args = base_args(threads=threads, backup=r.choice([None, "always"]), verbosity=verbosity) + ["push"] + goal
         before = runner.snapshot(work, with_meta=True)
-        rr = runner.run_rq(binary, work, args)
+        run_cwd = work
+        if r.random() < 0.2:
+            # the working directory named with -d from its parent, in relative and absolute spellings
+            run_cwd = os.path.dirname(work)
+            bn = os.path.basename(work)
+            args = ["-d", r.choice([bn, bn + "/", "./" + bn, work, work + "/"])] + args
+            res.count("runs-with--d")
+        rr = runner.run_rq(binary, run_cwd, args)
         after = runner.snapshot(work, with_meta=True)
         res["evals"] = 1
         sig0 = {"case": what, "driver": "seq" if threads == 1 else "par", "verbosity": verbosity or "default"}
@@ -1635,8 +1676,11 @@ def trace_summary(events):
     loads = {}
     saves = {}
     dist = {}
+    owners = {}
     for e in events:
         k = e["key"]
+        if k.startswith("save-owner:"):
+            owners.setdefault(e["worker"], []).append(k[len("save-owner:"):])
         if k.startswith("queue:"):
             _, w, idx, name = k.split(":", 3)
             queues.setdefault(w, []).append((int(idx), name))
@@ -1662,7 +1706,7 @@ def trace_summary(events):
     depth = {}
     for w, items in applied.items():
         depth[w] = sum(1 for idx, _, _ in items if final is not None and idx > final)
-    return {"queues": queues, "applied": applied, "final": final, "depth": depth, "unroll": unroll, "timeouts": timeouts, "loads": loads, "saves": saves, "dist": dist}
+    return {"queues": queues, "applied": applied, "final": final, "depth": depth, "unroll": unroll, "timeouts": timeouts, "loads": loads, "saves": saves, "dist": dist, "owners": owners}
 
 
 def interleaving_signature(summ):
@@ -1736,6 +1780,27 @@ def c06_scripts(r, summ, nthreads, ws=None):
                 lines.append("after flagged:%d apply-begin:%d:%s 400" % (final, nxt[0], nxt[1]))
                 scripts.append(("depth-%d" % d, lines))
                 break
+    # 3b. order of the save workers relative to the one that owns the failing patch's files (it rolls back and
+    # renders the rejects before it saves): every other save worker done before it starts, and the other way round
+    owners = summ.get("owners") or {}
+    if final is not None and len(owners) >= 2:
+        fnames = set(name for w in workers for idx, name in queues[w] if idx == final)
+        if ws is not None and final < len(ws.patches):
+            for op in ws.patches[final].ops:
+                fnames.add(op.path)
+                fnames.add(op.new_path)
+        fown = sorted(w for w, files in owners.items() if any(f in fnames for f in files))
+        rest = sorted(w for w in owners if w not in fown and owners[w])
+        if fown and rest:
+            last, firstl = [], []
+            for fw in fown:
+                f = sorted(x for x in owners[fw] if x in fnames)[0]
+                for o in rest:
+                    g = sorted(owners[o])[0]
+                    last.append("after save-owner-done:%s save-owner:%s 400" % (g, f))
+                    firstl.append("after save-owner-done:%s save-owner:%s 400" % (f, g))
+            scripts.append(("failing-owner-saves-last", last))
+            scripts.append(("failing-owner-saves-first", firstl))
     # 4. random delays over all gate points (apply and save phase)
     for _ in range(2):
         lines = []
@@ -1801,9 +1866,12 @@ def c06_worker(item):
     if x < 0.22:
         return c06_rotation(r, seed, binary, res)
     cfg = wsgen.GenConfig(p_fail=0.65, max_patches=r.choice([3, 5, 8]), max_files=r.choice([3, 6, 8]), max_ops=r.choice([2, 3, 4]))
+    cfg.p_early_poison = 0.3
     cfg.kinds = ["modify"] * 6 + ["create"] * 2 + ["delete"] * 3 + ["rename"] * 3 + ["chmod", "truncate", "fill"]
     cfg.p_second_fail = 0.5
     ws = wsgen.generate(seed, cfg)
+    if r.random() < 0.25 and wsgen.add_newdir_reject(ws, r):
+        res.count("shape:reject-in-a-directory-created-by-this-run")
     nthreads = r.choice([2, 3, 4, 8, 16])
     backup = r.choice(["always", None, "never"])
     bcount = r.choice([None, None, None, 0, 1, 2, "all"])
@@ -2368,6 +2436,7 @@ def c04_worker(item):
     r = random.Random(seed * 920419823 + 4)
     res = Res()
     cfg = wsgen.GenConfig(p_fail=1.0, max_patches=r.choice([1, 2, 3]), max_ops=r.choice([3, 4, 5]), max_files=r.choice([2, 4]))
+    cfg.p_early_poison = 0.3
     cfg.kinds = ["modify"] * 3 + ["create"] * 3 + ["delete"] * 3 + ["rename"] * 4 + ["chmod"] * 3 + ["truncate"]
     cfg.fail_reasons = ["hunks", "hunks", "missing", "create-over", "delete-mismatch"]
     ws = wsgen.generate(seed, cfg)
@@ -2605,6 +2674,7 @@ def c06_tsan_worker(item):
     r = random.Random(seed * 1000003 + 66)
     res = Res()
     cfg = wsgen.GenConfig(p_fail=0.6, max_patches=r.choice([3, 6, 10]), max_files=r.choice([3, 6, 8]), max_ops=3)
+    cfg.p_early_poison = 0.3
     cfg.p_second_fail = 0.5
     ws = wsgen.generate(seed, cfg)
     nthreads = r.choice([2, 4, 8, 16])
@@ -2653,6 +2723,7 @@ def memcheck_worker(item):
     r = random.Random(seed * 1000003 + 99)
     res = Res()
     cfg = wsgen.GenConfig(p_fail=0.4, max_patches=r.choice([1, 3, 5]))
+    cfg.p_early_poison = 0.3
     ws = wsgen.generate(seed, cfg)
     threads = r.choice([1, 4])
     args = base_args(threads=threads, backup=r.choice(["always", None]), verbosity="-q") + ["--mmap", "push", "-a"]
